@@ -19,8 +19,9 @@ from harness import common
 from harness.common import zlit, zlist
 
 GEN_MODULES = ['pdf']
-MODEL_TARGETS = ['model/M_Pdf.vo']
-PROOF_TARGETS = ['proofs/P_PdfTime.vo', 'proofs/P_Pdf.vo', 'proofs/P_PdfBridge.vo']
+MODEL_TARGETS = ['model/M_Pdf.vo', 'model/M_PdfState.vo', 'model/M_PdfExt.vo']
+PROOF_TARGETS = ['proofs/P_PdfTime.vo', 'proofs/P_Pdf.vo', 'proofs/P_PdfBridge.vo', 'proofs/P_PdfState.vo',
+                 'proofs/P_PdfExt.vo', 'proofs/P_PdfSmooth.vo']
 LEVEL = 'proof'
 RULE = ('time PDFs: interval lists with 1..30 intervals (touching, zero-length, tiny/huge gaps) x box and gaussian '
         'profiles of every placement (inside one interval, spanning gaps, in a gap, before/after the live time, '
@@ -35,8 +36,8 @@ TRUSTED = [
     'are closed under the global context',
     'premise of the gaussian-profile theorems: erf has derivative 2/sqrt(pi) exp(-x^2) (scipy.special.erf is '
     'external code; C10_erf_exists shows the premise is satisfiable)',
-    'translator/py2coq.py: per-element reading of the numpy formulas (37 kernels of G_pdf.v, each pinned by a '
-    'characterising lemma K_*)',
+    'translator/py2coq.py: per-element reading of the numpy formulas (58 kernels of G_pdf.v, each pinned by a '
+    'characterising lemma K_* or used definitionally)',
     'hand model M_Pdf.v of masks / reductions / array plumbing, validated by this correspondence; '
     'Livetime.is_on and get_uptime_intervals_between enter through their closed forms, proved equal to the C14 '
     'model of the code on integer-valued inputs (P_PdfBridge.v)',
@@ -46,8 +47,12 @@ TRUSTED = [
     'np.histogram / np.histogram2d binning convention (half-open bins, last bin closed) is checked against the '
     'model binning on every case but is numpy code; scipy InterpolatedUnivariateSpline interpolates its knots '
     '(oracle); the smoothed histogram (scipy.signal.convolve) is covered by predicates only',
-    'S = 0 (window without on-time) and empty declination bands give inf/NaN in the code; the theorems are '
-    'guarded by S <> 0 / non-zero band content and the predicates skip those cases (counted)',
+    'S = 0 (window without on-time) and empty declination bands give inf/NaN in the code: stated as theorems at the '
+    'extended-real instance M_PdfExt.v (IEEE-style special values, no signed zeros; transcendental fields only lifted); '
+    'the normalisation theorems are guarded by S <> 0 / non-zero band content (witnesses show the guards are needed) and '
+    'the predicates skip those cases (counted)',
+    'oracles as Section hypotheses / readings: the log-spline interpolates its nodes (C10_spline_midpoint); '
+    'scipy.signal.convolve(mode="same") is the centred finite sum (smooth1, compared with the real class on every run)',
 ]
 
 UNIT = 2 ** 20
@@ -969,7 +974,7 @@ def quad_norm_check(ctx, site, kind_tag, cdesc, ivs, prof_state, evalf, S):
                       predicate='each density is normalised on its own: sum_I int_I pd = 1')
 
 
-def time_history_case(ctx, env, case):
+def time_history_case(ctx, env, case, lines=None, checks=None):
     from skyllh.core.livetime import Livetime
     from skyllh.core.parameters import ParameterModelMapper
     from skyllh.core.source_model import SourceModel
@@ -1039,8 +1044,12 @@ def time_history_case(ctx, env, case):
     try:
         # ---- 1. one get_pd call, K sources with different parameters; instance B interleaved
         tdmK = make_tdm_k(times, K)
+        profA = sigA.time_flux_profile
+        init_state = state(profA)
+        tolA = float(getattr(profA, '_tol', 0.0))
         r1 = call_sig(sigA, tdmK, rec)
         c1 = np.array(r1, copy=True)
+        twin_S = []
         args_ok('SignalTimePDF.get_pd')
         rB1 = call_sig(sigB, make_tdm_k(times, 1), env.rec)
         cB1 = np.array(rB1, copy=True)
@@ -1051,6 +1060,7 @@ def time_history_case(ctx, env, case):
             tw = twin_sig(dict(row, kind=kind))
             st = state(tw.time_flux_profile)
             tv = call_sig(tw, make_tdm_k(times, 1), env.rec)
+            twin_S.append(float(tw._S))
             ok = cmp_twin('SignalTimePDF.get_pd', 'multi-source-differs-from-single-source', r1[k * n:(k + 1) * n], tv, st,
                           times, {'source': k})
             if ok and len(ivs) <= 8:
@@ -1060,6 +1070,14 @@ def time_history_case(ctx, env, case):
                     return out[k * m:(k + 1) * m]
                 quad_norm_check(ctx, 'SignalTimePDF.get_pd', 'multi-source-not-normalised', dict(cdesc, source=k), ivs, st,
                                 evalf, float(tw._S))
+        # ---- model of the state machine (calc_pd from the constructor state), same rows and times
+        if lines is not None:
+            head = ['MS', kind, fh(init_state[0]), fh(init_state[1])] + ([fh(init_state[2])] if kind == 'gauss' else [])
+            head += [fh(tolA), str(len(ivs))] + [fh(x) for iv in ivs for x in iv]
+            head += [str(K)] + [fh(float(v)) for row in rec.tolist() for v in row]
+            head += [str(n)] + [fh(t) for t in times.tolist()]
+            lines.append(' '.join(head))
+            checks.append(('multi', cdesc, {'pd': c1.tolist(), 'S': twin_S, 'n': n, 'K': K}))
         # ---- 2. repeat / interleave / results are owned by the caller
         r2 = call_sig(sigA, tdmK, rec)
         if not (beq(r2, c1) if kind == 'box' else close_arr(r2, c1, 1e-9)):
@@ -1145,7 +1163,7 @@ def gen_shist_hist_case(ctx, rng):
     return {'kind': 'shist-history', 'e': e, 'ev': ev, 'adds': adds, 'k': rng.choice([1, 2])}
 
 
-def shist_history_case(ctx, cfg, case):
+def shist_history_case(ctx, cfg, case, lines=None, checks=None):
     from skyllh.core.binning import BinningDefinition
     from skyllh.i3.backgroundpdf import BackgroundI3SpatialPDF, DataBackgroundI3SpatialPDF, MCBackgroundI3SpatialPDF
     from skyllh.core.storage import DataFieldRecordArray as DFRA
@@ -1179,8 +1197,13 @@ def shist_history_case(ctx, cfg, case):
             dens = np.exp(pdf._log_spline(c))
         return pd, dens
 
+    trace = []
+    trace_of = [None]
+
     def check(tag, pdf, b, x_all, w_all, site):
         pd, dens = observe(pdf, b)
+        if pdf is trace_of[0]:
+            trace.append(dens.tolist())
         tw = mk(x_all, w_all)
         pdt, denst = observe(tw, tw.get_binning('sin_dec'))
         if not (close_arr(pd, pdt, 1e-12) and close_arr(dens, denst, 1e-12)):
@@ -1208,6 +1231,7 @@ def shist_history_case(ctx, cfg, case):
         orig_hist = np.array(A._orig_hist, copy=True)
         inr = lambda a: a[(a >= e[0]) & (a <= e[-1])]            # noqa: E731
         site = 'BackgroundI3SpatialPDF'
+        trace_of[0] = A
         p0 = check('constructed', A, bA, xs, ws, site)
         p0c = p0.copy()
         check('constructed (second instance)', B, bA, xsB, wsB, site)
@@ -1227,6 +1251,26 @@ def shist_history_case(ctx, cfg, case):
             if not beq(A._orig_hist, orig_hist):
                 ctx.violation(site + '.add_events', 'stored-histogram-modified', f'{tag}: the stored original histogram changed',
                               case=dict(cdesc, step=tag))
+        if lines is not None:
+            edges_l = e.tolist()
+            nb = len(edges_l) - 1
+
+            def brute(vals, wts):
+                t = [[] for _ in range(nb)]
+                for x, wt in zip(vals, wts):
+                    for i in range(nb):
+                        if edges_l[i] <= x < edges_l[i + 1] or (i == nb - 1 and x == edges_l[-1]):
+                            t[i].append(wt)
+                return [math.fsum(z) for z in t]
+            orig = brute(xs.tolist(), ws.tolist())
+            toks = ['AE', str(nb)] + [fh(v) for v in orig] + [fh(v) for v in edges_l]
+            for tag, idx in steps:
+                if idx is None:
+                    toks.append('R')
+                else:
+                    toks += ['A'] + [fh(v) for v in brute(adds[idx].tolist(), [1.0] * len(adds[idx]))]
+            lines.append(' '.join(toks))
+            checks.append(('addev', cdesc, {'trace': trace, 'nb': nb}))
         if not beq(p0, p0c):
             ctx.violation(site + '.get_pd', 'result-overwritten-by-later-call', 'an array returned earlier was modified', case=cdesc)
         k = changed(snaps, [xs, ws, e, evs[0], evs[1]])
@@ -1335,9 +1379,101 @@ def ehist_history_case(ctx, cfg, case):
         ctx.violation('harness.ehist_history_case', 'crash-' + type(ex).__name__, repr(ex)[:300], case=cdesc)
 
 
+# ---------------------------------------------------------------------------- smoothing
+
+def smooth_case(ctx, rng, lines, checks):
+    """real NeighboringBinHistSmoothingMethod on a random 2d histogram vs smooth1 per column; convexity and the
+    conservation law as predicates"""
+    import scipy.signal
+    from skyllh.core.smoothing import (BlockSmoothingFilter, GaussianSmoothingFilter, NeighboringBinHistSmoothingMethod,
+                                       UNSMOOTH_AXIS)
+    nb = rng.choice([1, 1, 2, 3])
+    flt = rng.choice([BlockSmoothingFilter, GaussianSmoothingFilter])(nb)
+    k = np.array(flt.axis_kernel_array, dtype=np.float64)
+    n = rng.randint(len(k), len(k) + 8)
+    m = rng.choice([1, 2, 4])
+    h = np.array([[0.0 if rng.random() < 0.3 else rng.random() * rng.choice([1, 10]) for _ in range(m)] for _ in range(n)])
+    case = {'kind': 'smooth', 'k': k.tolist(), 'h': h.tolist()}
+    ctx.case(case)
+    ctx.count('smooth:' + type(flt).__name__)
+    h0 = h.copy()
+    sm = NeighboringBinHistSmoothingMethod((k, UNSMOOTH_AXIS))
+    out = np.array(sm.smooth(h), dtype=np.float64)
+    out2 = np.array(sm.smooth(h), dtype=np.float64)
+    if not beq(h, h0) or not beq(out, out2):
+        ctx.violation('NeighboringBinHistSmoothingMethod.smooth', 'argument-modified-or-repeat-differs',
+                      'the input histogram changed or a repeated call differs', case=case)
+    norm = scipy.signal.convolve(np.ones(n), k, mode='same')
+    for j in range(m):
+        col, s = h[:, j], out[:, j]
+        lo, hi = float(col.min()), float(col.max())
+        eps = 1e-12 * (1 + hi)
+        if not (np.all(s >= lo - eps) and np.all(s <= hi + eps)):
+            ctx.violation('NeighboringBinHistSmoothingMethod.smooth', 'not-a-convex-combination',
+                          'a smoothed bin lies outside the range of the input bins (negative or unbounded)',
+                          case=dict(case, column=j), impl=s.tolist(), predicate='min h <= smoothed_i <= max h')
+        a, b = float(np.sum(norm * s)), float(np.sum(norm * col))
+        if not same(a, b, 1e-10):
+            ctx.violation('NeighboringBinHistSmoothingMethod.smooth', 'norm-weighted-mass-not-conserved',
+                          f'sum norm_i smoothed_i = {a!r} but sum norm_i h_i = {b!r}', case=dict(case, column=j),
+                          predicate='symmetric kernel conserves the kernel-norm weighted mass')
+        lines.append(' '.join(['SM', str(len(k))] + [fh(v) for v in k.tolist()] + [str(n)] + [fh(v) for v in col.tolist()]))
+        checks.append(('smooth', dict(case, column=j), s.tolist()))
+
+
+def compare_list(ctx, check, out, site, tol):
+    _, cdesc, impl = check
+    tok = out.split()
+    if not tok or tok[0].startswith('ERR'):
+        ctx.disagree(site, cdesc, impl, out, 'model driver error')
+        return
+    vals = [pf(x) for x in tok]
+    if len(vals) != len(impl) or not all(same(a, b, tol) for a, b in zip(impl, vals)):
+        ctx.disagree(site, cdesc, impl, vals, 'values differ')
+
+
+def compare_multi(ctx, check, out):
+    _, cdesc, impl = check
+    tok = out.split()
+    if not tok or tok[0].startswith('ERR'):
+        ctx.disagree('SignalTimePDF.multi-source', cdesc, None, out, 'model driver error')
+        return
+    vals = [pf(x) for x in tok]
+    n, K = impl['n'], impl['K']
+    if len(vals) != K * (n + 1):
+        ctx.disagree('SignalTimePDF.multi-source', cdesc, None, out[:200], 'model output has the wrong length')
+        return
+    for k in range(K):
+        S_m = vals[k * (n + 1)]
+        blk = vals[k * (n + 1) + 1:(k + 1) * (n + 1)]
+        S_i = impl['S'][k]
+        for a, b in zip(impl['pd'][k * n:(k + 1) * n], blk):
+            ok = (a == 0.0) == (b == 0.0)
+            if ok and a != 0.0:
+                ok = same(a * S_i, b * S_m, 1e-9) if (math.isfinite(a) and math.isfinite(b)) else same(a, b, 0.0)
+            if not ok:
+                ctx.disagree('SignalTimePDF.multi-source', dict(cdesc, source=k), {'pd': a, 'S_fresh': S_i},
+                             {'pd': b, 'S_model': S_m}, 'source block differs from the state-machine model')
+                return
+
+
+def compare_addev(ctx, check, out):
+    _, cdesc, impl = check
+    tok = out.split()
+    if not tok or tok[0] != 'Ok':
+        ctx.disagree('BackgroundI3SpatialPDF.add_events', cdesc, 'Ok', out[:100], 'model rejects an accepted histogram')
+        return
+    vals = [pf(x) for x in tok[1:]]
+    nb = impl['nb']
+    want = [v for step in impl['trace'] for v in step]
+    if len(vals) != len(want) or not all(same(a, b, 1e-9) for a, b in zip(want, vals)):
+        ctx.disagree('BackgroundI3SpatialPDF.add_events', cdesc, want[:3 * nb], vals[:3 * nb],
+                     'node values after the op sequence differ from the state-machine model')
+
+
 # ============================================================================ driver
 
-def run_cases(ctx, tcases, hcases, scases, npsf, psf_cases=None, thist=(), shhist=()):
+def run_cases(ctx, tcases, hcases, scases, npsf, psf_cases=None, thist=(), shhist=(), nsmooth=0):
     from skyllh.core.config import Config
     env = TimeEnv()
     cfg = Config()
@@ -1345,10 +1481,10 @@ def run_cases(ctx, tcases, hcases, scases, npsf, psf_cases=None, thist=(), shhis
     zexprs, zchecks = [], []
     for c in thist:
         ctx.case(c)
-        time_history_case(ctx, env, c)
+        time_history_case(ctx, env, c, lines, checks)
     for c in shhist:
         ctx.case(c)
-        shist_history_case(ctx, cfg, c)
+        shist_history_case(ctx, cfg, c, lines, checks)
     for c in tcases:
         ctx.case(c)
         try:
@@ -1363,6 +1499,8 @@ def run_cases(ctx, tcases, hcases, scases, npsf, psf_cases=None, thist=(), shhis
     for c in scases:
         ctx.case(c)
         shist_case(ctx, cfg, c, zexprs, zchecks, lines, checks)
+    for _ in range(nsmooth):
+        smooth_case(ctx, ctx.rng, lines, checks)
     for c in (psf_cases or [None] * npsf):
         psf_case(ctx, cfg, ctx.rng, lines, checks, case=c)
         ctx.case({'psf': ctx.evaluations})
@@ -1404,6 +1542,12 @@ def run_cases(ctx, tcases, hcases, scases, npsf, psf_cases=None, thist=(), shhis
             compare_simple(ctx, chk, out, 'BackgroundI3SpatialPDF.pd')
         elif k == 'psf':
             compare_simple(ctx, chk, out, 'GaussianPSF.calculate_pd', tol=1e-11)
+        elif k == 'multi':
+            compare_multi(ctx, chk, out)
+        elif k == 'addev':
+            compare_addev(ctx, chk, out)
+        elif k == 'smooth':
+            compare_list(ctx, chk, out, 'NeighboringBinHistSmoothingMethod.smooth', 1e-11)
 
 
 def run(ctx):
@@ -1419,7 +1563,7 @@ def run(ctx):
     scases = [gen_shist_case(ctx, rng) for _ in range(ctx.budget(30, 400))]
     thist = time_hist_corpus() + [gen_time_hist_case(ctx, rng) for _ in range(ctx.budget(40, 500))]
     shhist = [gen_shist_hist_case(ctx, rng) for _ in range(ctx.budget(25, 300))]
-    run_cases(ctx, tcases, hcases, scases, ctx.budget(6, 60), thist=thist, shhist=shhist)
+    run_cases(ctx, tcases, hcases, scases, ctx.budget(6, 60), thist=thist, shhist=shhist, nsmooth=ctx.budget(30, 400))
 
 
 def replay(ctx, rp):
